@@ -199,3 +199,35 @@ def fold_closure_scoring(m: Model, lgs):
                             f'{sorted(k for k in target if k != "name")} it gives {r!r} (a number is required: the engine compares and sums scores)',
                             m.floc(fn) if isinstance(fn, FuncRef) else '?'))
     return out, sorted(consulted)
+
+
+def nullable_target_keys(m: Model):
+    """Target keys that hold None when an option is off, found by folding the two annotating functions with the option
+    off and reading the annotated target: {key: option}."""
+    from collections import deque
+    keys = {}
+    f_ext = m.func(TAB, 'Rule._extend_targets')
+    t = Tgt('t0')
+    rule = Obj('rule', __srcclass__=(m, ClassRef(TAB, 'Rule')), opts={'is_rank_optim': False})
+    rule.score_candidate = lambda x: 1.0
+    it = Interp(dict(deque=deque, Sequence=(list, tuple, deque), isinstance=isinstance,
+                     Target=lambda *a, **k: Tgt('fresh-copy', **dict(a[0] if a else {}, **k))), where='proof/tableaux.py Rule._extend_targets')
+    it.call(f_ext, [rule, [t]])
+    for k, v in t.items():
+        if v is None:
+            keys[k] = 'is_rank_optim'
+    f_get = m.func(TAB, 'Tableau._get_group_application')
+    f_sel = m.func(TAB, 'Tableau._select_optim_group_application')
+    t = Tgt('t0')
+    rl = Obj('rule0', target=lambda branch: t, group_score=lambda target: 1.0)
+    tab = Obj('tableau', __srcclass__=(m, ClassRef(TAB, 'Tableau')), opts={'is_group_optim': False})
+    it = Interp(dict(deque=deque, Tableau=Obj('Tableau', StepEntry=lambda rule, target, dur: Obj('entry', rule=rule, target=target, duration=dur)),
+                     Counter=lambda: 'CTR', bool=bool, len=len, Target=lambda *a, **k: Tgt('fresh-copy', **dict(a[0] if a else {}, **k))),
+                where='Tableau._get_group_application')
+    tab._select_optim_group_application = lambda entries: it.call(f_sel, [tab, entries])
+    r = it.call(f_get, [tab, 'BRANCH', [rl]])
+    tgt = getattr(r, 'target', None) or t
+    for k, v in tgt.items():
+        if v is None:
+            keys[k] = 'is_group_optim'
+    return keys
